@@ -25,7 +25,7 @@ IsrOf(rec) == [r \in R |-> [x \in DOMAIN rec[r] |-> rec[r][x]]]
 \* the recorded part of the state
 Seen(e) == [meta |-> MetaOf(e.st.meta), up |-> Fn(e.st.up), role |-> Fn(e.st.role), log |-> Fn(e.st.log),
             hw |-> Fn(e.st.hw), hwDisk |-> Fn(e.st.hwDisk), ec |-> Fn(e.st.ec), isrOff |-> IsrOf(e.st.isrOff),
-            obs |-> AcksOf(e.obs)]
+            obs |-> AcksOf(e.obs), lagging |-> ToSet(e.st.lagging)]
 
 TaintStr == IF taint' = {} THEN "-" ELSE
   LET has(x) == IF x \in taint' THEN x \o "," ELSE "" IN
@@ -49,7 +49,9 @@ NextOf(e) ==
     [] e.a = "Checkpoint" -> N_Checkpoint(e.args.r)
     [] e.a = "Crash" -> N_Crash(e.args.r)
     [] e.a = "Restart" -> N_Restart(e.args.r, e.args.reach)
-    [] e.a = "Elect" -> N_Elect(e.args.n, e.args.reach)
+    [] e.a = "Elect" -> N_Elect(e.args.n, e.args.reach, ToSet(e.args.lag))
+    [] e.a = "StaleFetch" -> N_StaleFetch(e.args.f)
+    [] e.a = "ApplyMeta" -> N_ApplyMeta(e.args.f, e.args.reach)
     [] OTHER -> Cur
 
 GuardOf(e) ==
@@ -64,18 +66,20 @@ GuardOf(e) ==
     [] e.a = "Crash" -> G_Crash(e.args.r)
     [] e.a = "Restart" -> ~up[e.args.r]
     [] e.a = "Elect" -> e.args.n \in meta.isr /\ e.args.n # Leader
+    [] e.a = "StaleFetch" -> G_StaleFetch(e.args.f)
+    [] e.a = "ApplyMeta" -> e.args.f \in lagging /\ up[e.args.f]
     [] OTHER -> TRUE
 
 BindSeen(s) ==
   /\ meta' = s.meta /\ up' = s.up /\ role' = s.role /\ log' = s.log /\ hw' = s.hw
-  /\ hwDisk' = s.hwDisk /\ ec' = s.ec /\ isrOff' = s.isrOff /\ obs' = s.obs
+  /\ hwDisk' = s.hwDisk /\ ec' = s.ec /\ isrOff' = s.isrOff /\ obs' = s.obs /\ lagging' = s.lagging
 
 TraceInit ==
   LET s == Seen(Trace[1]) IN
   /\ meta = s.meta /\ up = s.up /\ role = s.role /\ log = s.log /\ hw = s.hw
   /\ hwDisk = s.hwDisk /\ ec = s.ec /\ isrOff = s.isrOff /\ obs = NoAcks
   /\ pend = [r \in R |-> <<>>] /\ caught = [r \in R |-> FALSE]
-  /\ committed = {} /\ nacked = {} /\ taint = {}
+  /\ committed = {} /\ nacked = {} /\ taint = {} /\ lagging = {}
   /\ l = 2
 
 TraceNext ==
@@ -109,6 +113,7 @@ TraceNext ==
              /\ Chk(s.up = n.up, "I", e, "up")
              /\ Chk(s.meta = n.meta, "I", e, "meta")
              /\ Chk(s.hwDisk = n.hwDisk, "I", e, "hwDisk")
+             /\ Chk(s.lagging = n.lagging, "I", e, "lagging")
              /\ Chk(s.obs = n.obs, "I", e, "acks")
              /\ Chk(\A r \in R : e.st.pendN[r] = Len(n.pend[r]), "I", e, "pend")
              /\ Chk(~Skipped(e), "I", e, "skipped")
